@@ -59,6 +59,8 @@ type simNode struct {
 	shadow  []ent // the full log (model index k+1 = shadow[k]); survives Storage.Compact
 	applied uint64
 	down    bool
+	removed bool         // Stage D: applied its own removal (raftexample shuts the node down)
+	conf    pb.ConfState // Stage D: result of the last ApplyConfChange (goes into snapshots)
 	// history for the safety predicates
 	hTerm, hCommit, hVoteTerm, hVote uint64
 	hPrefix                           []ent
@@ -72,6 +74,7 @@ type profile struct {
 	pHeal                                                             float64
 	lag                                                               bool // keep one follower cut off for long stretches (forces MsgSnap after compaction)
 	paged                                                             bool // MaxSizePerMsg = 0: at most one entry per MsgApp (acks of old-term indexes, partial appends)
+	member                                                            int  // Stage D: weight of add/remove/promote events; such schedules are checked by the safety predicates only
 }
 
 var profiles = []profile{
@@ -82,6 +85,8 @@ var profiles = []profile{
 	{name: "snap", wTick: 22, wDeliver: 50, wDrop: 2, wPropose: 14, wCampaign: 1, wCrash: 2, wCompact: 9, pDup: 0.05, lag: true},
 	{name: "paged", wTick: 22, wDeliver: 52, wDrop: 4, wPropose: 12, wCampaign: 4, wCrash: 3, wCompact: 2, pDup: 0.15, paged: true},
 	{name: "paged-partition", wTick: 25, wDeliver: 50, wDrop: 3, wPropose: 12, wCampaign: 3, wCrash: 2, wCompact: 2, pDup: 0.1, partition: 35, pHeal: 0.4, paged: true},
+	{name: "member", wTick: 22, wDeliver: 55, wDrop: 3, wPropose: 8, wCampaign: 3, wCrash: 2, wCompact: 2, pDup: 0.1, member: 6},
+	{name: "member-partition", wTick: 24, wDeliver: 50, wDrop: 4, wPropose: 8, wCampaign: 3, wCrash: 2, wCompact: 2, pDup: 0.15, partition: 40, pHeal: 0.4, member: 6},
 	{name: "reorder", wTick: 12, wDeliver: 40, wDrop: 2, wPropose: 10, wCampaign: 5, wCrash: 2, wCompact: 2, pDup: 0.5},
 }
 
@@ -145,13 +150,17 @@ func newSim(n int, seed int64, prof profile, w *bufio.Writer) *sim {
 		s.ids = append(s.ids, uint64(i+1))
 	}
 	s.group = make([]int, n)
+	voters := s.ids
+	if prof.member > 0 && n > 3 {
+		voters = s.ids[:3] // Stage D: the other nodes start outside the configuration and are added later
+	}
 	for i := 0; i < n; i++ {
 		ms := raft.NewMemoryStorage()
 		// an EMPTY log with a known membership: a snapshot that carries only the ConfState (etcd needs index >= 1)
-		if err := ms.ApplySnapshot(pb.Snapshot{Metadata: pb.SnapshotMetadata{Index: 1, Term: 0, ConfState: pb.ConfState{Voters: s.ids}}}); err != nil {
+		if err := ms.ApplySnapshot(pb.Snapshot{Metadata: pb.SnapshotMetadata{Index: 1, Term: 0, ConfState: pb.ConfState{Voters: voters}}}); err != nil {
 			panic(err)
 		}
-		nd := &simNode{id: uint64(i + 1), ms: ms, applied: 1, hCommit: 1}
+		nd := &simNode{id: uint64(i + 1), ms: ms, applied: 1, hCommit: 1, conf: pb.ConfState{Voters: voters}}
 		nd.rn = s.newRawNode(nd)
 		s.nodes = append(s.nodes, nd)
 	}
@@ -210,7 +219,11 @@ func conv(es []pb.Entry) []ent {
 	out := make([]ent, 0, len(es))
 	for _, e := range es {
 		p := pidOf(e.Data)
-		if e.Type != pb.EntryNormal {
+		if e.Type == pb.EntryConfChange {
+			var cc pb.ConfChange
+			_ = cc.Unmarshal(e.Data)
+			p = 1<<40 | uint64(cc.Type)<<8 | cc.NodeID
+		} else if e.Type != pb.EntryNormal {
 			p = math.MaxUint32 - 1
 		}
 		out = append(out, ent{e.Term, p})
@@ -351,6 +364,7 @@ func (s *sim) drain(nd *simNode) (out []pb.Message, selfAcks int) {
 			if err := nd.ms.ApplySnapshot(rd.Snapshot); err != nil {
 				panic(fmt.Sprintf("ApplySnapshot: %v", err))
 			}
+			nd.conf = rd.Snapshot.Metadata.ConfState
 			nd.shadow = parseEnts(string(rd.Snapshot.Data))
 			if uint64(len(nd.shadow))+1 != rd.Snapshot.Metadata.Index {
 				panic("harness: snapshot ghost prefix has the wrong length")
@@ -376,6 +390,19 @@ func (s *sim) drain(nd *simNode) (out []pb.Message, selfAcks int) {
 		out = append(out, rd.Messages...)
 		if k := len(rd.CommittedEntries); k > 0 && rd.CommittedEntries[k-1].Index > nd.applied {
 			nd.applied = rd.CommittedEntries[k-1].Index
+		}
+		for _, e := range rd.CommittedEntries {
+			if e.Type == pb.EntryConfChange { // Stage D: apply before Advance, as raftexample's publishEntries does
+				var cc pb.ConfChange
+				if err := cc.Unmarshal(e.Data); err != nil {
+					panic("harness: conf change does not unmarshal")
+				}
+				nd.conf = *nd.rn.ApplyConfChange(cc)
+				s.stats["confchange-applied"]++
+				if cc.Type == pb.ConfChangeRemoveNode && cc.NodeID == nd.id {
+					nd.removed = true
+				}
+			}
 		}
 		// `advance` steps MsgAppResp{From: self} when entries were appended and r.id == r.lead
 		if len(rd.Entries) > 0 && nd.rn.BasicStatus().Lead == nd.id {
@@ -425,7 +452,12 @@ func (s *sim) event(kind string, i int, call func() []string) {
 		defer func() {
 			if r := recover(); r != nil {
 				msg := strings.ReplaceAll(fmt.Sprint(r), "\n", " ")
-				if strings.HasPrefix(msg, "harness:") {
+				if strings.Contains(msg, "removed all voters") {
+					// Stage D: the application proposed removals from stale views until no voter was left; etcd panics by design
+					// (applyConfChange: "TODO return the error to the caller") — an application error, not a C15 violation
+					line = fmt.Sprintf("# APP-ERROR event=%d kind=%s node=%d %s", s.evNo, kind, i, msg)
+					s.stats["app-error"]++
+				} else if strings.HasPrefix(msg, "harness:") {
 					line = fmt.Sprintf("HARNESS-BUG event=%d kind=%s node=%d %s", s.evNo, kind, i, msg)
 				} else {
 					line = fmt.Sprintf("SAFETY-VIOLATION panic event=%d kind=%s node=%d :: %s", s.evNo, kind, i, msg)
@@ -446,6 +478,9 @@ func (s *sim) event(kind string, i int, call func() []string) {
 		}
 		line = fmt.Sprintf("E %s %d %s %s %s", kind, i, strings.Join(inputs, ";"), proj, o)
 	}()
+	if s.prof.member > 0 && strings.HasPrefix(line, "E ") {
+		line = "# " + line // Stage D schedules are outside the lock-step: the driver skips them
+	}
 	fmt.Fprintln(s.w, line)
 	if !s.bad {
 		s.checkSafety(kind, i)
@@ -586,7 +621,7 @@ func (s *sim) checkSafety(kind string, i int) {
 func (s *sim) upNodes() []int {
 	var u []int
 	for i, nd := range s.nodes {
-		if !nd.down {
+		if !nd.down && !nd.removed {
 			u = append(u, i)
 		}
 	}
@@ -642,7 +677,7 @@ func (s *sim) doPropose(i int) {
 func (s *sim) deliverable(k int) bool {
 	m := s.pool[k].m
 	a, b := int(m.From-1), int(m.To-1)
-	if s.nodes[b].down {
+	if s.nodes[b].down || s.nodes[b].removed {
 		return false
 	}
 	return s.group[a] == s.group[b]
@@ -681,7 +716,7 @@ func (s *sim) doDeliver() bool {
 	s.stats["recv-"+strings.SplitN(txt, ",", 2)[0]]++
 	s.event("deliver", i, func() []string {
 		err := nd.rn.Step(pm.m)
-		if err != nil && !errors.Is(err, raft.ErrProposalDropped) {
+		if err != nil && !errors.Is(err, raft.ErrProposalDropped) && !(s.prof.member > 0 && errors.Is(err, raft.ErrStepPeerNotFound)) {
 			panic(fmt.Sprintf("harness: Step: %v", err))
 		}
 		switch pm.m.Type {
@@ -712,7 +747,7 @@ func (s *sim) doCompact(i int) bool {
 	}
 	c := snap.Metadata.Index + 1 + uint64(s.rng.Int63n(int64(nd.applied-snap.Metadata.Index)))
 	s.event("compact", i, func() []string {
-		cs := pb.ConfState{Voters: s.ids}
+		cs := nd.conf
 		if _, err := nd.ms.CreateSnapshot(c, &cs, []byte(fmtEnts(nd.shadow[:c-1]))); err != nil {
 			panic(fmt.Sprintf("harness: CreateSnapshot(%d): %v", c, err))
 		}
@@ -726,6 +761,37 @@ func (s *sim) doCompact(i int) bool {
 		return []string{"noop"}
 	})
 	return true
+}
+
+// Stage D: propose one simple membership change (add a voter, add a learner, promote = add a learner as voter, remove)
+func (s *sim) doConfChange(i int) {
+	nd := s.nodes[i]
+	x := uint64(1 + s.rng.Intn(s.n))
+	isVoter := false
+	for _, v := range nd.conf.Voters {
+		if v == x {
+			isVoter = true
+		}
+	}
+	var cc pb.ConfChange
+	switch r := s.rng.Intn(10); {
+	case r < 4:
+		cc = pb.ConfChange{Type: pb.ConfChangeAddNode, NodeID: x} // also promotes a learner
+	case r < 6 && !isVoter:
+		cc = pb.ConfChange{Type: pb.ConfChangeAddLearnerNode, NodeID: x}
+	case len(nd.conf.Voters) >= 3:
+		cc = pb.ConfChange{Type: pb.ConfChangeRemoveNode, NodeID: x}
+	default:
+		cc = pb.ConfChange{Type: pb.ConfChangeAddNode, NodeID: x}
+	}
+	s.stats["confchange-"+cc.Type.String()]++
+	s.event("confchange", i, func() []string {
+		err := nd.rn.ProposeConfChange(cc)
+		if err != nil && !errors.Is(err, raft.ErrProposalDropped) {
+			panic(fmt.Sprintf("harness: ProposeConfChange: %v", err))
+		}
+		return []string{"confchange"}
+	})
 }
 
 func (s *sim) repartition() {
@@ -746,7 +812,7 @@ func (s *sim) run(events int) {
 		s.doCampaign(s.rng.Intn(s.n))
 	}
 	p := s.prof
-	total := p.wTick + p.wDeliver + p.wDrop + p.wPropose + p.wCampaign + p.wCrash + p.wCompact
+	total := p.wTick + p.wDeliver + p.wDrop + p.wPropose + p.wCampaign + p.wCrash + p.wCompact + p.member
 	for s.evNo < events && !s.bad {
 		if p.partition > 0 && s.evNo%p.partition == p.partition-1 {
 			s.repartition()
@@ -796,6 +862,9 @@ func (s *sim) run(events int) {
 			}
 		case r < p.wTick+p.wDeliver+p.wDrop+p.wPropose+p.wCampaign+p.wCrash:
 			i := s.rng.Intn(s.n)
+			if s.nodes[i].removed {
+				break
+			}
 			if s.nodes[i].down || s.rng.Float64() < 0.5 {
 				s.stats["restarts"]++
 				s.doRestart(i) // crash (if it was up) and restart from the persisted state
@@ -803,9 +872,13 @@ func (s *sim) run(events int) {
 				s.nodes[i].down = true // crash now, restart later; nothing reaches it meanwhile
 				s.stats["crashes"]++
 			}
-		default:
+		case r < p.wTick+p.wDeliver+p.wDrop+p.wPropose+p.wCampaign+p.wCrash+p.wCompact:
 			if len(up) > 0 {
 				s.doCompact(up[s.rng.Intn(len(up))])
+			}
+		default:
+			if len(up) > 0 {
+				s.doConfChange(up[s.rng.Intn(len(up))])
 			}
 		}
 	}
